@@ -88,6 +88,11 @@ theorem getWatcherCmd_known (n : String) (u : Nat) (s : State)
   unfold getWatcherCmd
   simp only [bind, lookupWatcher, getA, pure, h]
 
+/-- **`Command._get_watcher` only reads**: whatever the name and the state, the lookup leaves the
+    state identical -/
+theorem C11_get_watcher_reads (name : JVal) (s : State) : (getWatcherCmd name s).2 = s :=
+  getWatcherCmd_reads name s
+
 /-- whatever the name: `_get_watcher` answers and leaves the state alone -/
 theorem getWatcherCmd_cases (name : JVal) (s : State) :
     (∃ e, getWatcherCmd name s = (.error e, s)) ∨ (∃ u, getWatcherCmd name s = (.ok u, s)) := by
@@ -310,6 +315,7 @@ theorem C11_add_invalid_option_noop (props : JVal) (s : State) (o : JVal)
     | _ => rfl
   · exact ve_req_fail _ _ _ hr
 
+/-- the same for `add`, spelled out by position -/
 theorem C11_add_invalid_option_anywhere (props : JVal) (s : State) (pre post : List (String × JVal))
     (k : String) (v : JVal) (ho : props.get? "options" = some (.obj (pre ++ (k, v) :: post)))
     (hv : validateOption k v = false) :
@@ -360,6 +366,7 @@ theorem C11_kill_bad_signal_noop (props : JVal) (s : State) (v : JVal)
     rw [he]; exact ⟨e, rfl⟩
   · exact ⟨_, ve_req_fail _ _ _ hr⟩
 
+/-- … precisely MessageError when no `pid` is given (otherwise `int(pid)` may fail first) -/
 theorem C11_kill_bad_signal_message (props : JVal) (s : State) (v : JVal)
     (hs : props.get? "signum" = some v) (hv : toSignumJ v = none) (hp : props.get? "pid" = none) :
     validateExecute "kill" props s = (.error .message, s) := by
@@ -417,6 +424,14 @@ theorem execSet_unknown (props : JVal) (s : State) (h : unknownWatcher ((props.g
   unfold execSet
   simp only [bind]
   rw [getWatcherCmd_unknown _ s h]
+  rfl
+
+theorem execSet_unknown_err (props : JVal) (s : State) (e : Exc)
+    (h : getWatcherCmd ((props.get? "name").getD .null) s = (.error e, s)) :
+    execSet props s = (.error e, s) := by
+  unfold execSet
+  simp only [bind]
+  rw [h]
   rfl
 
 theorem execSignal_unknown (props : JVal) (s : State) (h : unknownWatcher ((props.get? "name").getD .null) s) :
@@ -1548,6 +1563,15 @@ theorem C11_refused_only_replies (cid : Option String) (j : JVal) (s : State) (n
   cases hc'
   exact ⟨e, h⟩
 
+/-- … **and no signal is sent** while such a request is handled: every observation appended to the
+    log is a reply (neither a `kill()` call nor a published event) -/
+theorem C11_refused_no_signal (cid : Option String) (j : JVal) (s : State) (name : String)
+    (hc : j.get? "command" = some (.str name)) (e : Exc)
+    (h : validateExecute (pyLower name) (propsOf j) (clearDone s).2 = (.error e, (clearDone s).2)) :
+    ∀ o ∈ (handleMessage cid (some j) s).2.log.drop s.log.length,
+      o.isSig = false ∧ o.isEv = false ∧ o.isRep = true :=
+  C11_sameDaemon_no_signal (C11_refused_only_replies cid j s name hc e h)
+
 /-- a request whose `validate`+`execute` leave the state alone and return no pending future -/
 theorem C11_quiet_only_replies (cid : Option String) (j : JVal) (s : State) (name : String)
     (hc : j.get? "command" = some (.str name)) (r : R ExecRes)
@@ -1977,7 +2001,7 @@ theorem execReadOnly_errNoop (c : String) (props : JVal) (s : State) : ErrNoop (
     cases hn : props.get? "name" with
     | none => rw [hn] at he; cases he
     | some name =>
-      rw [hn] at he ⊢
+      rw [hn] at he
       simp only at he ⊢
       rw [bind_run] at he ⊢
       rcases getWatcherCmd_cases name s with ⟨e1, h⟩ | ⟨u, h⟩
@@ -1987,7 +2011,7 @@ theorem execReadOnly_errNoop (c : String) (props : JVal) (s : State) : ErrNoop (
     cases hn : props.get? "name" with
     | none => rw [hn] at he; cases he
     | some name =>
-      rw [hn] at he ⊢
+      rw [hn] at he
       simp only at he ⊢
       rw [bind_run] at he ⊢
       rcases getWatcherCmd_cases name s with ⟨e1, h⟩ | ⟨u, h⟩
@@ -1997,7 +2021,7 @@ theorem execReadOnly_errNoop (c : String) (props : JVal) (s : State) : ErrNoop (
     cases hn : props.get? "name" with
     | none => rw [hn] at he; cases he
     | some name =>
-      rw [hn] at he ⊢
+      rw [hn] at he
       simp only at he ⊢
       rw [bind_run] at he ⊢
       rcases getWatcherCmd_cases name s with ⟨e1, h⟩ | ⟨u, h⟩
@@ -2006,6 +2030,280 @@ theorem execReadOnly_errNoop (c : String) (props : JVal) (s : State) : ErrNoop (
   · cases he
   · rfl
   · cases he
+
+theorem ve_readonly_all (c : String)
+    (hc : c ∈ ["status", "list", "numprocesses", "numwatchers", "listen", "dstats", "get", "globaloptions",
+               "ipython", "listsockets", "options", "stats"])
+    (props : JVal) (s : State) (hr : reqOk c props) :
+    validateExecute c props s = execReadOnly c props s := by
+  simp only [List.mem_cons, List.mem_nil_iff, or_false] at hc
+  rcases hc with rfl | rfl | rfl | rfl | rfl | rfl | rfl | rfl | rfl | rfl | rfl | rfl <;>
+  · unfold validateExecute; erw [if_neg (by unfold reqOk at hr; simp [hr])]; rfl
+
+/-- **an error answer means that nothing happened** — for every registered command except `set`
+    (finding F4) and `signal` (whose execution-time errors, NoSuchProcess / KeyError, may follow a
+    signal already sent; they are not validation-class errors): whatever the properties and the
+    state, if `validate`+`execute` answer with an error then the state is identical. -/
+theorem C11_error_noop (cmd : String)
+    (hc : cmd ∈ ["add", "decr", "dstats", "get", "globaloptions", "incr", "ipython", "kill", "list", "listen",
+                 "listsockets", "numprocesses", "numwatchers", "options", "quit", "reload", "reloadconfig",
+                 "restart", "rm", "start", "stats", "status", "stop"])
+    (props : JVal) (s : State) (e : Exc) (h : (validateExecute cmd props s).1 = .error e) :
+    (validateExecute cmd props s).2 = s := by
+  by_cases hr : reqOk cmd props
+  swap
+  · rw [ve_req_fail _ _ _ hr]
+  simp only [List.mem_cons, List.mem_nil_iff, or_false] at hc
+  rcases hc with rfl | rfl | rfl | rfl | rfl | rfl | rfl | rfl | rfl | rfl | rfl | rfl | rfl | rfl | rfl | rfl |
+    rfl | rfl | rfl | rfl | rfl | rfl | rfl
+  · exact C11_add_error_noop props s e h
+  · -- decr
+    rw [ve_decr props s hr] at h ⊢
+    cases hnb : props.get? "nb" with
+    | none => rw [hnb] at h; exact execIncrDecr_errNoop _ props s e h
+    | some v =>
+      rw [hnb] at h
+      cases v with
+      | int i => exact execIncrDecr_errNoop _ props s e h
+      | _ => rfl
+  · rw [ve_readonly_all _ (by decide) props s hr] at h ⊢; exact execReadOnly_errNoop _ props s e h
+  · rw [ve_readonly_all _ (by decide) props s hr] at h ⊢; exact execReadOnly_errNoop _ props s e h
+  · rw [ve_readonly_all _ (by decide) props s hr] at h ⊢; exact execReadOnly_errNoop _ props s e h
+  · -- incr
+    rw [ve_incr props s hr] at h ⊢
+    cases hnb : props.get? "nb" with
+    | none => rw [hnb] at h; exact execIncrDecr_errNoop _ props s e h
+    | some v =>
+      rw [hnb] at h
+      cases v with
+      | int i => exact execIncrDecr_errNoop _ props s e h
+      | _ => rfl
+  · rw [ve_readonly_all _ (by decide) props s hr] at h ⊢; exact execReadOnly_errNoop _ props s e h
+  · -- kill
+    rw [ve_kill props s hr] at h ⊢
+    cases hv : validateKill props with
+    | error e1 => rfl
+    | ok p =>
+      rw [hv] at h
+      obtain ⟨r, hk⟩ := execKill_ok props s
+      simp only at h
+      rw [hk] at h; cases h
+  · rw [ve_readonly_all _ (by decide) props s hr] at h ⊢; exact execReadOnly_errNoop _ props s e h
+  · rw [ve_readonly_all _ (by decide) props s hr] at h ⊢; exact execReadOnly_errNoop _ props s e h
+  · rw [ve_readonly_all _ (by decide) props s hr] at h ⊢; exact execReadOnly_errNoop _ props s e h
+  · rw [ve_readonly_all _ (by decide) props s hr] at h ⊢; exact execReadOnly_errNoop _ props s e h
+  · rw [ve_readonly_all _ (by decide) props s hr] at h ⊢; exact execReadOnly_errNoop _ props s e h
+  · rw [ve_readonly_all _ (by decide) props s hr] at h ⊢; exact execReadOnly_errNoop _ props s e h
+  · -- quit
+    rw [ve_quit] at h ⊢
+    exact errNoop_syncMap "arbiter_stop" .arbStop [] (fun tid => ExecRes.future tid "") s e h
+  · rw [ve_reload] at h ⊢; exact execReload_errNoop props s e h
+  · -- reloadconfig
+    have : validateExecute "reloadconfig" props s = (.error (.other "unmodelled"), s) := by
+      unfold validateExecute; erw [if_neg (by simp [requiredProps])]; rfl
+    rw [this]
+  · rw [ve_restart] at h ⊢; exact execSSR_errNoop _ props s e h
+  · rw [ve_rm props s hr] at h ⊢; exact execRm_errNoop props s e h
+  · rw [ve_start] at h ⊢; exact execSSR_errNoop _ props s e h
+  · rw [ve_readonly_all _ (by decide) props s hr] at h ⊢; exact execReadOnly_errNoop _ props s e h
+  · rw [ve_readonly_all _ (by decide) props s hr] at h ⊢; exact execReadOnly_errNoop _ props s e h
+  · rw [ve_stop] at h ⊢; exact execSSR_errNoop _ props s e h
+
+/-! ## `set`: F4 is the only hole — every error other than the execution-time `ValueError` of
+    `set_opt` means that nothing happened -/
+
+/-- a loop whose body keeps a state invariant `I` and an accumulator invariant `P` (and never
+    breaks) keeps both -/
+theorem forIn_inv {γ β : Type} (I : State → Prop) (P : β → Prop) (f : γ → β → M (ForInStep β))
+    (hf : ∀ a b s, I s → P b → I (f a b s).2 ∧ ∃ b', (f a b s).1 = ForInStep.yield b' ∧ P b') :
+    ∀ (l : List γ) (init : β) (s : State), I s → P init →
+      I ((forIn l init f : M β) s).2 ∧ P ((forIn l init f : M β) s).1 := by
+  intro l
+  induction l with
+  | nil => intro init s hi hp; exact ⟨hi, hp⟩
+  | cons x xs ih =>
+    intro init s hi hp
+    obtain ⟨hi1, b1, hb1, hp1⟩ := hf x init s hi hp
+    simp only [List.forIn_cons]
+    rw [bind_run]
+    generalize f x init s = r at hi1 hb1
+    obtain ⟨r, s1⟩ := r
+    simp only at hi1 hb1
+    subst hb1
+    exact ih b1 s1 hi1 hp1
+
+theorem setNpBody_a (u : Nat) (n : Int) (s : State) : (setNpBody u n s).2.a = s.a := by
+  unfold setNpBody
+  rw [bind_run]
+  have h1 : (trySetNp u n s).2.a = s.a := by
+    unfold trySetNp
+    simp only
+    generalize (if n < 0 then 0 else n) = n'
+    split <;> rfl
+  cases (trySetNp u n s).1 with
+  | false =>
+    erw [if_pos (show (!false) = true from rfl)]
+    exact h1
+  | true =>
+    erw [if_neg (show ¬ (!true) = true by simp)]
+    rw [bind_run]
+    show (notify u "updated" none "-" (trySetNp u n s).2).2.a = s.a
+    rw [notify_a]; exact h1
+
+/-- `Watcher.set_opt` does not touch the arbiter (slot, flags, directory) -/
+theorem setOpt_a (u : Nat) (k : String) (v : JVal) (s : State) : (setOpt u k v s).2.a = s.a := by
+  by_cases hk : k = "numprocesses"
+  · subst hk; rw [setOpt_np]; exact setNpBody_a u _ s
+  · unfold setOpt
+    erw [if_neg hk]
+    cases optChange k v with
+    | none => rfl
+    | some c =>
+      simp only
+      rw [bind_run, bind_run]
+      show (notify u "updated" none "-" (setWOpt u c s).2).2.a = s.a
+      rw [notify_a]; rfl
+
+theorem arbiter_slot_eta (a : Arbiter) (h : a.slot = none) : { a with slot := none } = a := by
+  obtain ⟨w, n, slot, st, rs, wu, pc, cc, ls⟩ := a
+  simp only at h; subst h; rfl
+
+/-- one synchronized `set_opt` call with the slot free: the arbiter is as before (slot released),
+    and the only possible error is the `ValueError` of `set_opt` -/
+theorem syncSetOpt_free (u : Nat) (k : String) (v : JVal) (len : Bool) (s : State) (hb : ¬ busy s) :
+    (syncPlain "watcher_set_opt" (setOptBody u k v len) s).2.a = s.a ∧
+    ((syncPlain "watcher_set_opt" (setOptBody u k v len) s).1 = .ok () ∨
+     (syncPlain "watcher_set_opt" (setOptBody u k v len) s).1 = .error (.other "ValueError")) := by
+  obtain ⟨_, h2⟩ := (not_busy_iff s).mp hb
+  rw [syncPlain_free _ _ s hb]
+  constructor
+  · unfold setOptBody
+    rw [bind_run]
+    show { (setOpt u k v (setSlot (some "watcher_set_opt") s).2).2.a with slot := none } = s.a
+    rw [setOpt_a]
+    show { s.a with slot := none } = s.a
+    exact arbiter_slot_eta s.a h2
+  · unfold setOptBody
+    rw [bind_run]
+    simp only [pure]
+    split
+    · exact .inl rfl
+    · exact .inr rfl
+
+/-- the accumulated error of `Set.execute`'s loop is nothing but `set_opt`'s `ValueError` -/
+def onlyValueError (err : Option Exc) : Prop := ∀ e, err = some e → e = .other "ValueError"
+
+theorem setHookStep_free (u : Nat) (a0 : Arbiter) (hs : a0.slot = none) (hr : a0.restarting = false)
+    (h : String × JVal) (err : Option Exc) (s : State) (hi : s.a = a0) (hp : onlyValueError err) :
+    (setHookStep u h err s).2.a = a0 ∧
+    ∃ b', (setHookStep u h err s).1 = ForInStep.yield b' ∧ onlyValueError b' := by
+  have hb : ¬ busy s := by rw [not_busy_iff, hi]; exact ⟨hr, hs⟩
+  unfold setHookStep
+  by_cases hn : err.isNone = true
+  · erw [if_pos hn]
+    rw [bind_run]
+    obtain ⟨h1, h2⟩ := syncSetOpt_free u ("hooks." ++ h.1) h.2 true s hb
+    generalize syncPlain "watcher_set_opt" (setOptBody u ("hooks." ++ h.1) h.2 true) s = r at h1 h2
+    obtain ⟨r, s1⟩ := r
+    simp only at h1 h2
+    rcases h2 with rfl | rfl
+    · exact ⟨h1.trans hi, _, rfl, hp⟩
+    · exact ⟨h1.trans hi, _, rfl, fun e he => by cases he; rfl⟩
+  · erw [if_neg hn]
+    exact ⟨hi, _, rfl, hp⟩
+
+theorem setKeyStep_free (u : Nat) (opts : List (String × JVal)) (a0 : Arbiter) (hs : a0.slot = none)
+    (hr : a0.restarting = false) (key : String) (st : Int × Option Exc) (s : State) (hi : s.a = a0)
+    (hp : onlyValueError st.2) :
+    (setKeyStep u opts key st s).2.a = a0 ∧
+    ∃ b', (setKeyStep u opts key st s).1 = ForInStep.yield b' ∧ onlyValueError b'.2 := by
+  have hb : ¬ busy s := by rw [not_busy_iff, hi]; exact ⟨hr, hs⟩
+  unfold setKeyStep
+  by_cases hn : st.2.isNone = true
+  · erw [if_pos hn]
+    by_cases hk : key = "hooks"
+    · erw [if_pos hk]
+      cases ((JVal.obj opts).get? key).getD .null with
+      | obj hs' =>
+        simp only
+        rw [bind_run]
+        obtain ⟨h1, h2⟩ := forIn_inv (fun s' => s'.a = a0) onlyValueError (setHookStep u)
+          (fun a b s' hi' hp' => setHookStep_free u a0 hs hr a b s' hi' hp') hs' st.2 s hi hp
+        exact ⟨h1, _, rfl, h2⟩
+      | _ => exact ⟨hi, _, rfl, hp⟩
+    · erw [if_neg hk]
+      rw [bind_run]
+      obtain ⟨h1, h2⟩ := syncSetOpt_free u key (((JVal.obj opts).get? key).getD .null) false s hb
+      generalize syncPlain "watcher_set_opt" (setOptBody u key (((JVal.obj opts).get? key).getD .null) false) s = r at h1 h2
+      obtain ⟨r, s1⟩ := r
+      simp only at h1 h2
+      rcases h2 with rfl | rfl
+      · simp only
+        by_cases hact : setOptAction key = 1
+        · erw [if_pos hact]; exact ⟨h1.trans hi, _, rfl, hp⟩
+        · erw [if_neg hact]; exact ⟨h1.trans hi, _, rfl, hp⟩
+      · exact ⟨h1.trans hi, _, rfl, fun e he => by cases he; rfl⟩
+  · erw [if_neg hn]
+    exact ⟨hi, _, rfl, hp⟩
+
+/-- with the slot free, `Set.execute` on an existing watcher fails only with `set_opt`'s `ValueError` -/
+theorem execSet_free_error (props : JVal) (s : State) (u : Nat) (hb : ¬ busy s)
+    (h : getWatcherCmd ((props.get? "name").getD .null) s = (.ok u, s)) (e : Exc)
+    (he : (execSet props s).1 = .error e) : e = .other "ValueError" := by
+  obtain ⟨hr, hs⟩ := (not_busy_iff s).mp hb
+  rw [execSet_run props s u h] at he
+  obtain ⟨h1, h2⟩ := forIn_inv (fun s' => s'.a = s.a) (fun st : Int × Option Exc => onlyValueError st.2)
+    (setKeyStep u (optsOf props))
+    (fun a b s' hi' hp' => setKeyStep_free u (optsOf props) s.a hs hr a b s' hi' hp')
+    (keysOf (optsOf props)) (0, none) s rfl (fun e he => by cases he)
+  change (setLoop u (optsOf props) s).2.a = s.a at h1
+  change onlyValueError (setLoop u (optsOf props) s).1.2 at h2
+  generalize setLoop u (optsOf props) s = r at he h1 h2
+  obtain ⟨⟨act, err⟩, s1⟩ := r
+  simp only at he h1 h2
+  unfold setFinish at he
+  cases err with
+  | some e1 =>
+    simp only at he
+    have := h2 e1 rfl
+    cases he
+    exact this
+  | none =>
+    simp only at he
+    rw [bind_run] at he
+    have hb1 : ¬ busy s1 := by rw [not_busy_iff, h1]; exact ⟨hr, hs⟩
+    obtain ⟨tid, ht⟩ := syncCoroutine_free "watcher_do_action" (.doAction u act) [] s1 hb1
+    rw [ht] at he
+    cases he
+
+/-- **a `set` answered with any error other than `set_opt`'s execution-time `ValueError` has changed
+    nothing** — MessageError (validation, unknown watcher), AttributeError, ConflictError: all are
+    raised before the first option is applied.  Together with `C11_counterexample_set_partial` this
+    delimits F4 exactly. -/
+theorem C11_set_refusal_noop (props : JVal) (s : State) (e : Exc)
+    (h : (validateExecute "set" props s).1 = .error e) (hne : e ≠ .other "ValueError") :
+    (validateExecute "set" props s).2 = s := by
+  by_cases hr : reqOk "set" props
+  swap
+  · rw [ve_req_fail _ _ _ hr]
+  rw [ve_set props s hr] at h ⊢
+  cases ho : props.get? "options" with
+  | none => rfl
+  | some o =>
+    rw [ho] at h
+    cases o with
+    | obj kvs =>
+      simp only at h ⊢
+      by_cases hall : (kvs.all fun kv => validateOption kv.1 kv.2) = true
+      · erw [if_pos hall] at h ⊢
+        by_cases hb : busy s
+        · obtain ⟨e1, h1⟩ := execSet_busy_any props s hb
+          rw [h1]
+        · rcases getWatcherCmd_cases ((props.get? "name").getD .null) s with ⟨e1, hg⟩ | ⟨u, hg⟩
+          · rw [execSet_unknown_err props s e1 hg]
+          · exact absurd (execSet_free_error props s u hb hg e h) hne
+      · erw [if_neg hall]; rfl
+    | _ => rfl
 
 /-! ## non-vacuity: the hypotheses instantiated on concrete states and requests -/
 
